@@ -547,10 +547,11 @@ func valueNonNilAt(v ssa.Value, at *ssa.BasicBlock, depth int) bool {
 }
 
 func checkC06(c *Ctx, r *Report) {
-	r.Rules = []string{"E1 no dropped error", "E1' no swallowed error", "E2 checked close of closers over a fallible sink", "D9 invalid settings end in an error", "E3 CLI failure edge removes the target and exits non-zero", "E2m closers over in-memory sinks completed before use", "E5 file references reach their reader as configured", "E1-dep dependency container writers (thorough)", "D9 required architecture (deb, rpm, apk) evaluated with literal tables modelled"}
+	r.Rules = []string{"E1 no dropped error", "E1' no swallowed error", "E2 checked close of closers over a fallible sink", "D9 invalid settings end in an error", "E3 CLI failure edge removes the target and exits non-zero", "E2m closers over in-memory sinks completed before use", "E5 file references reach their reader as configured", "E1-dep dependency container writers (thorough)", "D9 required architecture (deb, rpm, apk) evaluated with literal tables modelled", "E1'-cell an error kept in a memory cell is not overwritten by a later call's result on a path the failure takes", "E6-changelog-stat the changelog file is checked with os.Stat before the lenient parser reads it"}
 	r.Explanation = "Error-discipline analysis over go/ssa on the packaging call graph of all five packagers, the CLI, the signing helpers and the parser: (E1) every call whose callee returns an error has that result used, unless it falls under an enumerated idiom (reader-side Close, write into an in-memory buffer or hash decided by an interprocedural sink-root analysis, diagnostics, deferred cleanup Close discharged by E2, a named exception); (E1') from the failure edge of an `err != nil` test no path reaches a return with a nil error; (E2) every closer created over a fallible (caller-supplied) sink is closed/flushed, non-deferred and with its error used, before every return that may report success — or by a deferred closure that stores the Close error into the named result; (D9) the invalid cell of every finite setting evaluates to an error-only return set; (E3) the CLI's packaging-failure edge passes through os.Remove(target) and returns the error, and the root command exits with a non-zero constant. All paths and call sites of the code are covered, which is what 'every write index k' quantifies over; no fault is injected or executed."
 	r.Explanation += " (E2m) closers layered over an in-memory buffer are completed (non-deferred Close/Flush, also as the exit of a loop over a literal list of closers, also when the closer comes from a module factory) before every success-capable return and every read of the buffer. E1' also covers the error parameter of a tree-walk callback. (E5) a configuration field that names a file the packagers read may be assigned by the parser's environment expansion only if it is documented as expandable."
 	r.Explanation += " (D9-arch) nfpm.PrepareForPackager is evaluated for deb, rpm and apk with neither the general nor the format's own architecture set and every other setting unknown: every live return carries an error (lookups in map literals built in the function are modelled)."
+	r.Explanation += " (E1'-cell) for every store of a call's error into a named-result or captured variable that is then nil-tested, no other fresh-error store to that cell is reachable from both the failing and the succeeding edge. (E6-changelog-stat) every call of the changelog parser is dominated by os.Stat of the same path."
 	r.Assumptions = []string{
 		"third-party writers (archive/tar, compress/gzip, pgzip, zstd, xz, rpmpack, blakesmith/ar in quick tier) surface sink errors through the Write/Close error they return",
 		"writes into bytes.Buffer, strings.Builder and hash.Hash never fail",
@@ -812,6 +813,8 @@ func checkC06(c *Ctx, r *Report) {
 	r.Floor("E2m", e2m, 10)
 
 	checkD9(c, r)
+	checkErrorCellOverwrite(c, r, scope)
+	checkChangelogExists(c, r)
 	checkReferenceRewrite(c, r)
 	checkE3(c, r)
 	if c.Tier == "thorough" {
@@ -2418,4 +2421,180 @@ func deferredCloseOf(fn *ssa.Function, aliases map[ssa.Value]bool, method string
 		})
 	}
 	return found
+}
+
+// checkErrorCellOverwrite (E1'-cell): an error kept in a variable that lives in
+// memory - a named result of a function with defers, a variable shared by
+// closures - is lost when a later call's result is stored over it on a path
+// that the failure took too. For every store of a fresh error (the result of
+// a call) into such a cell whose value is then tested against nil: no other
+// fresh-error store to the same cell is reachable from the failing edge if it
+// is reachable from the succeeding edge as well (a store reached from the
+// failing edge only is a fallback, which is legitimate).
+func checkErrorCellOverwrite(c *Ctx, r *Report, scope map[*ssa.Function]bool) {
+	n := 0
+	for _, fn := range sortedFuncs(c, scope) {
+		cells := map[ssa.Value][]*ssa.Store{}
+		forEachInstr(fn, func(in ssa.Instruction) {
+			st, ok := in.(*ssa.Store)
+			if !ok || !types.Identical(st.Val.Type(), errorType) {
+				return
+			}
+			switch st.Addr.(type) {
+			case *ssa.Alloc, *ssa.FreeVar:
+				cells[st.Addr] = append(cells[st.Addr], st)
+			}
+		})
+		fresh := func(v ssa.Value) bool {
+			switch x := v.(type) {
+			case *ssa.Extract:
+				_, isCall := x.Tuple.(*ssa.Call)
+				return isCall
+			case *ssa.Call:
+				// wrapping of the cell's own value is not a fresh error
+				for _, a := range x.Call.Args {
+					for _, e := range variadicElems(a) {
+						if mi, isMI := e.(*ssa.MakeInterface); isMI {
+							e = mi.X
+						}
+						if ld, isLd := e.(*ssa.UnOp); isLd && ld.Op == token.MUL {
+							if _, isCell := cells[ld.X]; isCell {
+								return false
+							}
+						}
+					}
+					if ld, isLd := a.(*ssa.UnOp); isLd && ld.Op == token.MUL {
+						if _, isCell := cells[ld.X]; isCell {
+							return false
+						}
+					}
+				}
+				return true
+			}
+			return false
+		}
+		var addrs []ssa.Value
+		for a := range cells {
+			addrs = append(addrs, a)
+		}
+		sort.Slice(addrs, func(i, j int) bool { return addrs[i].Pos() < addrs[j].Pos() })
+		for _, cell := range addrs {
+			stores := cells[cell]
+			if len(stores) < 2 {
+				continue
+			}
+			k := 0
+			for _, s1 := range stores {
+				if !fresh(s1.Val) {
+					continue
+				}
+				// the nil test of the value just stored: a load of the cell
+				// after s1 in its block (no store in between)
+				var fail, pass *ssa.BasicBlock
+				after := false
+				for _, in := range s1.Block().Instrs {
+					if in == ssa.Instruction(s1) {
+						after = true
+						continue
+					}
+					if !after {
+						continue
+					}
+					if st, isSt := in.(*ssa.Store); isSt && st.Addr == cell {
+						break
+					}
+					ld, isLd := in.(*ssa.UnOp)
+					if !isLd || ld.Op != token.MUL || ld.X != cell {
+						continue
+					}
+					if f := nilTestFailEdge(ld); f != nil {
+						fail = f
+						for _, ref := range *ld.Referrers() {
+							if bo, isBO := ref.(*ssa.BinOp); isBO && bo.Referrers() != nil {
+								for _, r2 := range *bo.Referrers() {
+									if ifi, isIf := r2.(*ssa.If); isIf {
+										for _, sc := range ifi.Block().Succs {
+											if sc != f {
+												pass = sc
+											}
+										}
+									}
+								}
+							}
+						}
+					}
+				}
+				if fail == nil || pass == nil {
+					continue
+				}
+				n++
+				k++
+				var lost *ssa.Store
+				for _, s2 := range stores {
+					if s2 == s1 || !fresh(s2.Val) {
+						continue
+					}
+					fromFail := s2.Block() == fail || blockReaches(fail, s2.Block())
+					fromPass := s2.Block() == pass || blockReaches(pass, s2.Block())
+					// a path from the failing edge back through s1 itself (a
+					// retry loop) does not count
+					if fromFail && fromPass && !(blockReaches(s2.Block(), s1.Block()) && s1.Block() != s2.Block() && s2.Block().Dominates(s1.Block())) {
+						lost = s2
+					}
+				}
+				construct := fmt.Sprintf("%s: error kept in %s, store#%d", c.funcKey(fn), shorten(valueExpr(c, cell, 0), 30), k)
+				if lost != nil {
+					r.Fail("E1'-cell", construct, c.instrPos(s1), fmt.Sprintf("after this error has been found non-nil, control can still reach the store at %s, which replaces it by the result of a later call: the first failure is forgotten (and the operation may report success)", c.instrPos(lost)))
+				} else {
+					r.Pass("E1'-cell", construct, c.instrPos(s1), "no later fresh error is stored over it on a path the failure takes")
+				}
+			}
+		}
+	}
+	r.Count("error_cells_with_tested_stores", n)
+}
+
+// checkChangelogExists (E6-changelog-stat): the changelog parser of the
+// dependency treats a file it cannot read as an empty changelog, so nfpm
+// checks for the file first. That check must see what the parser will open:
+// os.Stat of the same path (following links - os.Lstat is satisfied by a
+// dangling link), dominating the parse.
+func checkChangelogExists(c *Ctx, r *Report) {
+	n := 0
+	for _, fn := range c.ModFuncs {
+		forEachInstr(fn, func(in ssa.Instruction) {
+			call, ok := in.(*ssa.Call)
+			if !ok {
+				return
+			}
+			o := calleeObj(call)
+			if o == nil || o.Pkg() == nil || !strings.HasSuffix(o.Pkg().Path(), "goreleaser/chglog") || o.Name() != "Parse" || len(call.Call.Args) == 0 {
+				return
+			}
+			n++
+			arg := call.Call.Args[0]
+			guard := ""
+			forEachInstr(fn, func(i2 ssa.Instruction) {
+				c2, ok := i2.(*ssa.Call)
+				if !ok || len(c2.Call.Args) == 0 || !instrDominates(c2, call) {
+					return
+				}
+				o2 := calleeObj(c2)
+				if o2 == nil {
+					return
+				}
+				switch qualifiedName(o2) {
+				case "os.Stat", "os.Lstat":
+					if c2.Call.Args[0] == arg || sameValue(c2.Call.Args[0], arg) {
+						if qualifiedName(o2) == "os.Stat" || guard == "" {
+							guard = qualifiedName(o2)
+						}
+					}
+				}
+			})
+			r.Check(guard == "os.Stat", "E6-changelog-stat", "changelog file checked with os.Stat before it is parsed in "+c.funcKey(fn), c.instrPos(call),
+				fmt.Sprintf("existence check found: %q; the parser silently yields an empty changelog for a file it cannot read, so the check must follow links like the parser's open does (a dangling link passes os.Lstat)", guard))
+		})
+	}
+	r.Floor("E6-changelog-stat", n, 1)
 }
